@@ -40,7 +40,8 @@ def calprobe(detector, _p=None, inp=0, **params):
     nv = p["nv"]
     applied = []
     for j in range(nv):
-        v = params[f"k{j}"]
+        # `collide`: the variables j >= 1 are arguments of other models (aux<j>) that are all called "k0" too
+        v = detector._memory[f"aux{j}"] if (p.get("collide") and j >= 1) else params[f"k{j}"]
         applied.append([float(x) for x in np.atleast_1d(np.asarray(v, dtype=float))])
     if p.get("inp_src") == "temperature":      # the input argument travels through a detector field
         inp = detector.environment.temperature - 100.0
@@ -64,6 +65,15 @@ def calprobe(detector, _p=None, inp=0, **params):
     detector.image.array = np.zeros(shape, dtype=np.uint16)
 
 
+def calaux(detector, k0=None, _p=None):
+    """Holds one calibrated variable for calprobe (its argument has the same short name as calprobe's k0)."""
+    detector._memory[f"aux{(_p or {})['slot']}"] = k0
+
+
+def var_key(j: int, collide: bool) -> str:
+    return f"pipeline.photon_collection.aux{j}.arguments.k0" if (collide and j >= 1) else f"{KEY}k{j}"
+
+
 def write_frames(kcfg, workdir):
     tfiles, wfiles = [], []
     ones = True
@@ -80,7 +90,7 @@ def write_frames(kcfg, workdir):
     return tfiles, (None if ones else wfiles)
 
 
-def make_parameters(kcfg, variant=0):
+def make_parameters(kcfg, variant=0, collide=False):
     from pyxel.observation import ParameterValues
     params = []
     for j, v in enumerate(kcfg["vars"]):
@@ -92,7 +102,7 @@ def make_parameters(kcfg, variant=0):
             values, bounds = ["_"] * v["arity"], (lo[0], hi[0])           # one boundary pair shared by all components
         else:
             values, bounds = ["_"] * v["arity"], [[a, b] for a, b in zip(lo, hi)]   # a pair per component
-        params.append(ParameterValues(key=f"{KEY}k{j}", values=values, logarithmic=bool(v["log"]), boundaries=bounds))
+        params.append(ParameterValues(key=var_key(j, collide), values=values, logarithmic=bool(v["log"]), boundaries=bounds))
     return params
 
 
@@ -109,7 +119,15 @@ def make_calibration(kcfg, workdir, variant=0, algo=None, extra=None, **kw):
     p.update(extra or {})
     p["job"] = JOB[0]
     args["_p"] = p
-    pipe = DetectionPipeline(photon_collection=[ModelFunction(func="harness.calib.calprobe", name="calprobe", arguments=args)])
+    collide = bool(p.get("collide"))
+    models = []
+    if collide:
+        for j, v in enumerate(kcfg["vars"]):
+            if j >= 1:
+                models.append(ModelFunction(func="harness.calib.calaux", name=f"aux{j}",
+                                            arguments={"k0": args.pop(f"k{j}"), "_p": {"slot": j}}))
+    models.append(ModelFunction(func="harness.calib.calprobe", name="calprobe", arguments=args))
+    pipe = DetectionPipeline(photon_collection=models)
     det = px.make_detector("ccd", kcfg["rows"], kcfg["cols"])
     det._memory["cnt"] = 5
     inputs = None
@@ -123,7 +141,7 @@ def make_calibration(kcfg, workdir, variant=0, algo=None, extra=None, **kw):
     cal = Calibration(
         target_data_path=tfiles, fitness_function=FitnessFunction(func=FF[kcfg["ff"]]),
         algorithm=algo or Algorithm(type="sade", generations=2, population_size=8),
-        parameters=make_parameters(kcfg, variant), result_type="pixel",
+        parameters=make_parameters(kcfg, variant, collide), result_type="pixel",
         result_fit_range=tuple(kcfg["rr"]), target_fit_range=tuple(kcfg["tr"]),
         result_input_arguments=inputs, weights_from_file=wfiles, **kw)
     return cal, det, pipe
@@ -159,7 +177,7 @@ def eval_job(job) -> dict:
             warnings.simplefilter("ignore")
             del CALLS[:]
             try:
-                cal, det, pipe = make_calibration(kcfg, wd, variant)
+                cal, det, pipe = make_calibration(kcfg, wd, variant, extra=job.get("extra"))
                 prob = make_problem(cal, det, pipe)
                 events.append({"e": "build", "out": "ok"})
             except Exception as e:
